@@ -686,7 +686,10 @@ fn dag_prog<F: Backend>(cx: &mut Cx, p: &Prog, pts: &[Vec<f32>]) {
                     // f64 dual only supplies the magnitude for the tolerance
                     let tol = 10.0 * TOL * 1f64.max(gpart.abs()).max(whole.m[*axis]);
                     cx.add("symbolic_derivative_checks", 1);
-                    if sym.is_finite() && gpart.is_finite() && (sym - gpart).abs() > tol {
+                    // a symbolic derivative that is NaN where the evaluator's partial (and the f64
+                    // derivative) is an ordinary number is a different number too
+                    let sym_nan_only = sym.is_nan() && gpart.is_finite() && whole.d[*axis].is_finite() && whole.m[*axis] < 1e30;
+                    if sym_nan_only || (sym.is_finite() && gpart.is_finite() && (sym - gpart).abs() > tol) {
                         cx.violation(
                             "Context::deriv evaluates to a different number than the gradient evaluator".to_string(),
                             desc(),
